@@ -19,3 +19,18 @@ Proof.
   destruct pr as [pr|], s as [s|], sw as [sw|], d as [d|], dw as [dw|], sp as [sp|], dp as [dp|], tcp, udp, a; cbn [action_to_Z permitted_b Z.eqb Pos.eqb andb];
     first [reflexivity | match goal with |- (if ?c then _ else _) = _ => destruct c end; reflexivity].
 Qed.
+
+(* ---- transfer ---------------------------------------------------------------------------------------------------------- *)
+From PV Require Import Proofs.AclProofs.
+
+(* the translated permit_frame_check reports a match exactly when every specified field of the rule agrees with the packet
+   (addresses under their wildcard bit by bit), and permits exactly when it matches and the rule's action is PERMIT *)
+Theorem source_permit_frame_check_spec : forall r proto src dst tcp tsp tdp udp usp udp_dp,
+  let p := {| p_proto := proto; p_src := src; p_dst := dst; p_sport := frame_ports tcp udp tsp usp; p_dport := frame_ports tcp udp tdp udp_dp |} in
+  let res := ACLRule_permit_frame_check (r_proto r) proto (r_src r) (r_srcw r) src (r_dst r) (r_dstw r) dst tcp tsp tdp (r_sport r) (r_dport r)
+                                        (action_to_Z (r_action r)) udp usp udp_dp in
+  (snd res = true <-> rule_matches r p) /\ (fst res = true <-> rule_matches r p /\ r_action r = PERMIT).
+Proof.
+  intros r proto src dst tcp tsp tdp udp usp udp_dp p res. subst res. rewrite gen_permit_frame_check. fold p. cbn [fst snd].
+  split; [apply matches_spec|]. rewrite Bool.andb_true_iff, matches_spec. destruct (r_action r); cbn; split; intros [A B]; split; auto; discriminate.
+Qed.
